@@ -100,6 +100,18 @@ class Ctx:
                     shutil.copyfile(src, dst)
                     n += 1
         self.n_snap = n
+        # idiom rewrite (an encoding step like the inline-asm translation): "(char *) p - (char *) NULL" (address of p as an
+        # integer, used only for "% sizeof (mp_limb_t)" alignment tests) is standard-level UB that makes CBMC give up on
+        # everything after it; it is rewritten to the equivalent integer cast in the snapshot copy (native replays use the same copy)
+        self.idiom_rewrites = []
+        for rel in ("mpz/export.c", "mpz/import.c"):
+            fp = os.path.join(self.snap, rel)
+            if os.path.exists(fp):
+                t = open(fp).read()
+                t2, k = re.subn(r"\(\(char \*\) (\w+) - \(char \*\) NULL\)", r"((unsigned long) (\1))", t)
+                if k:
+                    open(fp, "w").write(t2)
+                    self.idiom_rewrites.append("%s: %d x '(char *) p - (char *) NULL' -> '(unsigned long) p'" % (rel, k))
         # which implementation the pinned build links for each mpn routine (configure's
         # symlinks in mpn/): recorded so harnesses can name the real unit
         self.mpn_impl = {}
@@ -634,6 +646,7 @@ COMMON_ASSUMPTIONS = [
     "config.h is the pinned configure output minus HAVE_ATTRIBUTE_MODE (CBMC ignores mode(DI)); mpir.h is regenerated from gmp-h.in with the pinned substitutions",
     "malloc never fails (--no-malloc-may-fail): allocation failure aborts in MPIR by design and is outside every property",
     "sizes/allocations/sign patterns/alias patterns are concrete per query (enumerated by the driver); limb contents are solver variables",
+    "mpz/export.c and mpz/import.c: the alignment idiom '(char *) data - (char *) NULL' is rewritten to '(unsigned long) data' in the snapshot copy (pointer difference with NULL is UB that CBMC refuses to look past)",
 ]
 
 
